@@ -126,6 +126,9 @@ func emitC11Doc(out *Out, r *Rng) {
 	g.noGraph = true
 	g.multiPct = 20
 	root := g.node(g.sch.Root, 0, r.Bool())
+	if len(root.Fields) == 0 {
+		return
+	}
 	// every node carries its type unless it is reached through a property-scoped context
 	var untype func(n *ANode, scoped bool)
 	untype = func(n *ANode, scoped bool) {
@@ -302,6 +305,15 @@ func emitC11Shapes(out *Out) {
 				}
 			} else {
 				_, eerr := run.Mz.Entry(rp)
+				if eerr != nil && s.name == "heterogeneous-array" {
+					// the member's own type-scoped context must have been used (the predicates are the stored ones);
+					// which index the member is stored under is the positional question of finding F1
+					for _, e := range run.Mz.VerifEntries() {
+						if strings.Join(erase(e.VerifKeyParts()), " ") == strings.Join(erase(rp.Parts()), " ") {
+							eerr = nil
+						}
+					}
+				}
 				if eerr != nil {
 					why = append(why, fmt.Sprintf("%s: %s resolves to %v, under which nothing is stored (a different path instead of an error)", s.name, s.path, rp.Parts()))
 				} else if !s.wantStored {
